@@ -146,19 +146,34 @@ pub fn run_parallel(cycles: usize, stripes: usize, retire_min: usize) -> (DeepRe
 /// A state whose `slots` first slots have each been through `cycles` new/remove cycles
 /// (all of them removed now), prepared with plain API calls.
 pub fn seed_state(cycles: usize, slots: usize) -> State {
+    seed_state_at(cycles, slots, 0)
+}
+
+/// As `seed_state`, but `offset` live parentless nodes are created first, so that the cycled
+/// slots are not the lowest-numbered ones (their positions relative to other free slots differ).
+pub fn seed_state_at(cycles: usize, slots: usize, offset: usize) -> State {
     let mut arena: Arena<Payload> = Arena::new();
     let mut issued: Vec<Vec<NodeId>> = Vec::new();
+    let mut note = |issued: &mut Vec<Vec<NodeId>>, id: NodeId| {
+        let s = slot_of(id);
+        if s >= issued.len() {
+            issued.resize(s + 1, Vec::new());
+        }
+        issued[s].push(id);
+    };
+    let mut live: Vec<NodeId> = Vec::new();
+    for i in 0..offset {
+        let id = arena.new_node(Payload(i as u8));
+        note(&mut issued, id);
+        live.push(id);
+    }
     for _ in 0..cycles {
         let mut batch = Vec::new();
         for _ in 0..slots {
-            batch.push(arena.new_node(Payload(0)));
+            batch.push(arena.new_node(Payload(100)));
         }
         for id in batch {
-            let s = slot_of(id);
-            if s >= issued.len() {
-                issued.resize(s + 1, Vec::new());
-            }
-            issued[s].push(id);
+            note(&mut issued, id);
             id.remove(&mut arena);
         }
     }
@@ -166,11 +181,15 @@ pub fn seed_state(cycles: usize, slots: usize) -> State {
     assert_eq!(n, issued.len(), "seed: every slot was issued at least once");
     let obs = obs::observe(&arena);
     let mut model = Model::default();
-    for _ in 0..n {
-        model.status.push(Status::Removed);
+    for s in 0..n {
+        let is_live = live.iter().any(|id| slot_of(*id) == s);
+        model.status.push(if is_live { Status::Live } else { Status::Removed });
         model.parent.push(None);
         model.children.push(Vec::new());
-        model.payload.push(0);
+        model.payload.push(if is_live { s as u8 } else { 0 });
+        if is_live {
+            model.chains.push(vec![s]);
+        }
     }
     let cur: Vec<NodeId> = issued.iter().map(|v| *v.last().unwrap()).collect();
     let issued_v: Vec<Issued> = issued.into_iter().map(Issued::from_base).collect();
@@ -182,7 +201,149 @@ pub fn seed_state(cycles: usize, slots: usize) -> State {
         model,
         obs,
         key: 0,
+        dbg: 0,
     };
     st.rekey();
     st
+}
+
+/// The cycle at which the single slot of `(new_node; remove)^n` stops being reused, if any
+/// below `cap` (no other checks; used to place the boundary windows).
+pub fn find_retirement(cap: usize) -> Option<usize> {
+    let mut arena: Arena<Payload> = Arena::new();
+    let r = guarded(|| {
+        for c in 0..cap {
+            let id = arena.new_node(Payload(0));
+            if slot_of(id) > 0 {
+                return Some(c);
+            }
+            id.remove(&mut arena);
+        }
+        None
+    });
+    r.ok().flatten()
+}
+
+pub struct IdDfsStats {
+    pub paths: u64,
+    pub steps: u64,
+    pub is_removed_checks: u64,
+    pub panics: u64,
+}
+
+/// E2b: model-free depth-first enumeration of *all* histories over {new_node, remove(any live id)}
+/// of length <= depth starting at a boundary seed. Oracle (C06 only): a new id was never issued
+/// before; for every id ever issued `is_removed` is false iff the node is live by the bookkeeping
+/// of the calls made. Nothing is pruned: a history goes on whatever the arena looks like, as
+/// long as the library does not panic.
+pub fn id_history_dfs(
+    seed: &State,
+    depth: usize,
+    max_live: usize,
+    stats: &mut IdDfsStats,
+) -> Option<(Vec<String>, Failure)> {
+    struct Ctx<'a> {
+        verified: std::cell::RefCell<HashSet<String>>,
+        base: Vec<&'a [NodeId]>,
+        depth: usize,
+        max_live: usize,
+    }
+    fn check(arena: &Arena<Payload>, ctx: &Ctx, extra: &[(NodeId, bool)], stats: &mut IdDfsStats) -> Option<Failure> {
+        for (slot, b) in ctx.base.iter().enumerate() {
+            // is_removed(id) reads the node stored at id's position: the verdict for the (tens of
+            // thousands of) long-removed ids of a slot is re-evaluated whenever the complete
+            // rendering of that node differs from every rendering it was evaluated under before
+            let rendering = match arena.as_slice().get(slot) {
+                Some(n) => format!("{}:{:?}", slot, n),
+                None => continue,
+            };
+            if ctx.verified.borrow().contains(&rendering) {
+                continue;
+            }
+            for id in b.iter() {
+                stats.is_removed_checks += 1;
+                if guarded(|| id.is_removed(arena)) != Ok(true) {
+                    return Some(fail(C06, "is_removed", "removed-id-reports-live",
+                        format!("id {} issued and removed long ago reports is_removed() == false", fmt_id(Some(*id)))));
+                }
+            }
+            ctx.verified.borrow_mut().insert(rendering);
+        }
+        for (id, live) in extra {
+            stats.is_removed_checks += 1;
+            if guarded(|| id.is_removed(arena)) != Ok(!*live) {
+                return Some(fail(C06, "is_removed", if *live { "live-id-reports-removed" } else { "removed-id-reports-live" },
+                    format!("id {} is {} but reports is_removed() == {}", fmt_id(Some(*id)), if *live { "live" } else { "removed" }, *live)));
+            }
+        }
+        None
+    }
+    fn rec(
+        arena: &Arena<Payload>,
+        ctx: &Ctx,
+        extra: &mut Vec<(NodeId, bool)>,
+        path: &mut Vec<String>,
+        stats: &mut IdDfsStats,
+    ) -> Option<(Vec<String>, Failure)> {
+        if path.len() == ctx.depth {
+            stats.paths += 1;
+            return None;
+        }
+        let live: Vec<usize> = (0..extra.len()).filter(|&i| extra[i].1).collect();
+        // op 0: new_node
+        if live.len() < ctx.max_live {
+            let mut a = arena.clone();
+            stats.steps += 1;
+            match guarded(|| a.new_node(Payload(0))) {
+                Ok(id) => {
+                    path.push("new_node".into());
+                    let dup = extra.iter().any(|(x, _)| *x == id) || ctx.base.iter().any(|b| b.contains(&id));
+                    if dup {
+                        return Some((path.clone(), fail(C06, "fresh-id", "id-reissued", format!("new_node returned {} which was issued before", fmt_id(Some(id))))));
+                    }
+                    extra.push((id, true));
+                    if let Some(f) = check(&a, ctx, extra, stats) {
+                        return Some((path.clone(), f));
+                    }
+                    if let Some(r) = rec(&a, ctx, extra, path, stats) {
+                        return Some(r);
+                    }
+                    extra.pop();
+                    path.pop();
+                }
+                Err(_) => stats.panics += 1,
+            }
+        }
+        for i in live {
+            let mut a = arena.clone();
+            let id = extra[i].0;
+            stats.steps += 1;
+            match guarded(|| id.remove(&mut a)) {
+                Ok(()) => {
+                    path.push(format!("remove {}", fmt_id(Some(id))));
+                    extra[i].1 = false;
+                    if let Some(f) = check(&a, ctx, extra, stats) {
+                        return Some((path.clone(), f));
+                    }
+                    if let Some(r) = rec(&a, ctx, extra, path, stats) {
+                        return Some(r);
+                    }
+                    extra[i].1 = true;
+                    path.pop();
+                }
+                Err(_) => stats.panics += 1,
+            }
+        }
+        if path.len() < ctx.depth {
+            stats.paths += 1;
+        }
+        None
+    }
+    let ctx = Ctx {
+        verified: std::cell::RefCell::new(HashSet::new()),
+        base: seed.issued.iter().map(|i| i.base.as_slice()).collect(),
+        depth,
+        max_live,
+    };
+    rec(&seed.arena, &ctx, &mut Vec::new(), &mut Vec::new(), stats)
 }
